@@ -262,7 +262,8 @@ func runLoginHistory(sc histScenario, h []lop) bfs.Outcome {
 			return bfs.Outcome{Terminal: true, Obs: obs, Key: fmt.Sprintf("T|%s|%v", obs, h)}
 		}
 	}
-	return bfs.Outcome{Key: fmt.Sprintf("fwd=%v", forwarded), Obs: "pending"}
+	// no merging: the handler's state is hidden, every history up to the depth bound is run
+	return bfs.Outcome{Key: fmt.Sprintf("fwd=%v|%v", forwarded, h), Obs: "pending"}
 }
 
 func TestVerif(t *testing.T) {
